@@ -79,7 +79,7 @@ def topOfJson (j : Json) : Option Top := do
 
 def sregToJson (r : Sdk.Reg) : Json := ofNats [r.bank, r.idx]
 
-def popToJson : POp → Json
+def sdkPopToJson : POp → Json
   | .reg r => Json.mkObj [("r", sregToJson r)]
   | .lit v => Json.mkObj [("v", toJson v)]
   | .lab l => Json.mkObj [("l", (l.name : Json))]
@@ -87,9 +87,9 @@ def popToJson : POp → Json
   | .entryL a i => Json.mkObj [("e", ofNats [a, i])]
   | .entryR a r => Json.mkObj [("er", ofNats [a, r.bank, r.idx])]
 
-def pcmdToJson : PCmd → Json
+def sdkPcmdToJson : PCmd → Json
   | .label l => Json.mkObj [("l", (l.name : Json))]
-  | .instr mn ops => Json.mkObj [("i", (mn.name : Json)), ("o", Json.arr (ops.map popToJson).toArray)]
+  | .instr mn ops => Json.mkObj [("i", (mn.name : Json)), ("o", Json.arr (ops.map sdkPopToJson).toArray)]
 
 def errName : BuildError → String
   | .noRegister => "noRegister" | .noMeasRegister => "noMeasRegister" | .badHandle => "badHandle"
@@ -108,7 +108,7 @@ def handleSdk (op : String) (j : Json) : Option Json :=
     pure (Json.mkObj [
       ("subs", Json.arr (out.subs.map (fun s => match s with
         | none => Json.null
-        | some cs => Json.arr (cs.map pcmdToJson).toArray)).toArray),
+        | some cs => Json.arr (cs.map sdkPcmdToJson).toArray)).toArray),
       ("snaps", Json.arr (out.snaps.map snapToJson).toArray),
       ("err", match out.err with
         | none => Json.null
